@@ -475,27 +475,29 @@ struct Done {
 
 const TRANSPORTS: [&str; 6] = ["dgram", "stream", "multi_stream", "dgram_stream", "redundant", "load_balancer"];
 
-fn one_case(c: &mut Ctx, fam: &str, idx: u64) {
+fn one_case(c: &mut Ctx, fam: &str, idx: u64, threads: bool) {
     let mut rng = c.case_rng(fam, idx);
-    let transport = if idx % 20 == 1 { "stream" } else { ["dgram", "multi_stream", "dgram_stream", "redundant", "load_balancer"][(idx % 5) as usize] };
+    let transport = if threads { TRANSPORTS[(idx % 6) as usize] } else if idx % 20 == 1 { "stream" } else { ["dgram", "multi_stream", "dgram_stream", "redundant", "load_balancer"][(idx % 5) as usize] };
     let n = match rng.below(4) {
         0 => rng.range(1, 3),
         1 => rng.range(20, 60),
         _ => rng.range(3, 16),
     };
     // a silent peer under a trickle of requests (plain stream transport, real time): one request every half response timeout
-    let trickle = transport == "stream" && idx % 60 == 1;
+    let trickle = transport == "stream" && idx % 60 == 1 && !threads;
     let n = if trickle { rng.range(12, 18) } else { n };
     // a connection that is used again after it has been idle (plain stream transport, real time): a few requests
     // answered honestly, a pause shorter than the idle timeout, then ONE request the peer never answers
-    let reuse = transport == "stream" && idx % 60 == 21;
+    let reuse = transport == "stream" && idx % 60 == 21 && !threads;
     let n = if reuse { rng.range(2, 5) } else { n };
     // an honest peer that waits for all requests of the case, answers them with one write and closes the connection
     // at once: every answer has arrived, every request has to get its own (plain stream transport)
-    let burst = transport == "stream" && idx % 60 == 41;
+    let burst = transport == "stream" && idx % 60 == 41 && !threads;
     let n = if burst { rng.range(2, 9) } else { n };
     // every fourth case the peer is honest: each request is answered once, correctly, in time, in any order
-    let clean = idx % 4 == 2 && !trickle && !reuse && !burst;
+    // on real threads the peer is always honest: every request has to succeed, whatever the scheduler does
+    let clean = (idx % 4 == 2 || threads) && !trickle && !reuse && !burst;
+    let n = if threads { rng.range(20, 80) } else { n };
     let waves = if clean || trickle || reuse || burst { 1 } else { rng.range(1, 3) };
     let has_stream = matches!(transport, "stream" | "multi_stream" | "dgram_stream" | "redundant");
     let names: Vec<Vec<u8>> = (0..n)
@@ -522,7 +524,7 @@ fn one_case(c: &mut Ctx, fam: &str, idx: u64) {
         if reuse {
             sc = if nm == names.last().unwrap() { vec![vec![], vec![], vec![]] } else { vec![vec![Act { delay_ms: rng.range(0, 300) as u64, kind: Kind::Good }]] };
         }
-        if transport == "stream" {
+        if transport == "stream" || threads {
             for a in sc.iter_mut().flat_map(|x| x.iter_mut()) {
                 a.delay_ms /= 10;
             }
@@ -533,16 +535,22 @@ fn one_case(c: &mut Ctx, fam: &str, idx: u64) {
     let peer = Arc::new(Peer { inner: Mutex::new(PeerInner { seen: vec![], scripts, attempts: HashMap::new(), recent: vec![], sent: BTreeMap::new(), connects: 0, refuse_stream_connects: refuse, first_seen: HashMap::new() }), rng: Mutex::new(Rng::new(&[c.seed, idx, 15])), pipe: *rng.pick(&[8usize, 13, 64, 1 << 16, 1 << 16]), burst_after: if burst { n } else { 0 } });
     // net::client::stream measures its response timeout with std::time::Instant, which the paused tokio clock does not move:
     // the plain stream transport is exercised in real time, with every delay and timeout a tenth as long
-    let real_time = transport == "stream";
+    let real_time = transport == "stream" || threads;
     let scale: u64 = if real_time { 10 } else { 1 };
-    let rt = tokio::runtime::Builder::new_current_thread().enable_all().start_paused(!real_time).build().unwrap();
+    let rt = if threads {
+        tokio::runtime::Builder::new_multi_thread().worker_threads(4).enable_all().build().unwrap()
+    } else {
+        tokio::runtime::Builder::new_current_thread().enable_all().start_paused(!real_time).build().unwrap()
+    };
     let peer2 = peer.clone();
     let names2 = names.clone();
     let mut rng2 = rng.fork();
     let hard = Arc::new(AtomicU64::new(0));
     let res = ctx::catch(|| {
         rt.block_on(async move {
-            let setup = build(transport, &peer2, &mut rng2, scale);
+            // (on real threads the timeouts stay at full length: only the peer's delays are short, so that a stall of the
+            // machine is not taken for a lost answer)
+            let setup = build(transport, &peer2, &mut rng2, if threads { 1 } else { scale });
             let conn = Arc::new(setup.conn);
             let budget = setup.budget;
             let mut handles = Vec::new();
@@ -652,7 +660,7 @@ fn one_case(c: &mut Ctx, fam: &str, idx: u64) {
         }
         // the datagram transport on its own: from the moment the first copy of the request is out,
         // (1 + retries) read timeouts are all the time there is, whatever else arrives meanwhile
-        if transport == "dgram" && !d.timed_out {
+        if transport == "dgram" && !d.timed_out && !threads {
             if let Some(t1) = g.first_seen.get(&w::lower(&d.qname)) {
                 let took = d.done_at.saturating_duration_since(*t1);
                 if took > dg_budget + Duration::from_millis(20) {
@@ -838,6 +846,21 @@ fn long_connection_case(c: &mut Ctx, fam: &str, idx: u64) {
 }
 
 pub fn run(c: &mut Ctx) {
+    // real threads (multi-thread runtime, real time, honest peer, 20-80 concurrent requests): all there is to the
+    // ThreadSanitizer stage, a handful of cases elsewhere
+    let fam = "threads";
+    let total = if c.mode == "tsan" { c.total(24, 240) } else { c.total(48, 1200) };
+    for idx in c.cases(fam, total) {
+        if c.out_of_time() {
+            break;
+        }
+        ctx::slot_write(idx, &format!("{}|case", fam), &[]);
+        one_case(c, fam, idx, true);
+        c.count("threads_cases", 1);
+    }
+    if c.mode == "tsan" {
+        return;
+    }
     // one long-lived connection per run in the quick tier, one per shard in the thorough tier
     let fam = "long-connection";
     let total = c.total(1, 16);
@@ -852,10 +875,10 @@ pub fn run(c: &mut Ctx) {
             break;
         }
         ctx::slot_write(idx, &format!("{}|case", fam), &[]);
-        one_case(c, fam, idx);
+        one_case(c, fam, idx, false);
     }
     if !c.replaying() {
-        for k in ["requests_answered", "requests_failed", "header_only_errors_delivered", "ids_used_for_more_than_one_request", "tc_fallbacks_completed", "peer_sent:wrong-id", "peer_sent:wrong-question", "peer_sent:foreign-answer", "peer_sent:close", "cases:stream", "reused_idle_connection_cases", "burst_then_close_cases", "long_connection_requests", "cases:multi_stream", "cases:redundant", "cases:load_balancer"] {
+        for k in ["requests_answered", "requests_failed", "header_only_errors_delivered", "ids_used_for_more_than_one_request", "tc_fallbacks_completed", "peer_sent:wrong-id", "peer_sent:wrong-question", "peer_sent:foreign-answer", "peer_sent:close", "cases:stream", "reused_idle_connection_cases", "burst_then_close_cases", "long_connection_requests", "threads_cases", "cases:multi_stream", "cases:redundant", "cases:load_balancer"] {
             c.floor(k, 3);
         }
     }
